@@ -146,8 +146,7 @@ def _binary(orig):
         return orig(self, other)
     op.__name__ = getattr(orig, '__name__', 'op')
     op.__doc__ = getattr(orig, '__doc__', None)
-    op.__wrapped__ = orig
-    return op
+    return op           # no __wrapped__: icontract must see the adapter's signature, not the library's
 
 
 def attach_contracts(ctx, stats):
@@ -295,8 +294,10 @@ def setup(ctx):
     Ts, scaled = private_table_with_other_masses('c02_scaled_%d' % ctx.shard, lambda Z: SCALED_FACTOR)
     if not scaled:
         ctx.count('setup.scaled-table-unavailable')
-        ctx.note('the masses of a private table could not be changed through the private attribute behind .mass '
-                 '(refactored source); the private_scaled cases run on a private table with the tabulated masses')
+        if not ctx.shard:
+            ctx.note('the masses of a private table could not be changed through the private attribute behind '
+                     '.mass (refactored source); the private_scaled cases run on a private table with the '
+                     'tabulated masses')
     _s['tables'] = {'public': pt.elements, 'private': T, 'private_scaled': Ts}
     _s['scale'] = {'public': 1.0, 'private': 1.0, 'private_scaled': SCALED_FACTOR if scaled else 1.0}
     _s['cur_scale'] = 1.0
@@ -341,8 +342,14 @@ def setup(ctx):
 def finish(ctx):
     _s['reach'].stop()
     _s['reach'].export(ctx)
+    from ..gen.formulas import waive_unjudged, waive_dead
     for k, v in _s['stats'].items():
         ctx.count('contract.' + k, v)
+    waive_dead(ctx, '_count_atoms', ['contract._count_atoms', 'reach.count_atoms.nested'], 'reach.Formula.mass')
+    waive_dead(ctx, '_immutable', [], 'prog.leaf.seq')
+    waive_dead(ctx, '_convert_to_hill_notation', [], 'prog.leaf.dict')
+    waive_unjudged(ctx, 'contract._count_atoms', _s['stats']['_count_atoms'],
+                   _s['stats']['_count_atoms.unrecognised_call'], 'the private formulas._count_atoms')
 
 
 # ---------------------------------------------------------------- oracle
